@@ -64,8 +64,12 @@ def one_case(args):
     out = dict(case=case, viol=None, compared=0, nontrivial=0, skipped_gate=0, key=None, sample=None, inproc=0)
     mode = rng.choice(["all", "all_its", "all_its", "all_its_stave", "all_its_stave", "sanity_its"])
     # in stave mode validators are per FEE id, so several FEE ids may sit behind one link id
-    s = gen.generate(rng.getrandbits(40), n_links=rng.choice([2, 3, 4, 6]), hbfs=rng.choice([2, 3]),
-                     shared_link_ids=(mode == "all_its_stave" and rng.random() < 0.5), merge=rng.choice(["roundrobin", "random", "hbf", "contiguous"]))
+    # planted cross-link situations (stratified): 1 = more than one reader batch (> 100 packets) with an unknown system id on non-first packets, one of them
+    # at a global index that is a multiple of the batch size; 2 = unreadable (over-padded) payloads on several links right after a page that ended in the middle of a frame
+    plant = case % 3
+    gkw = dict(hbfs=rng.choice([12, 20]), max_pages=2) if plant == 1 else dict(hbfs=rng.choice([3, 4]), p_split=0.6, max_pages=4) if plant == 2 else dict(hbfs=rng.choice([2, 3]))
+    s = gen.generate(rng.getrandbits(40), n_links=rng.choice([2, 3, 4, 6]),
+                     shared_link_ids=(mode == "all_its_stave" and rng.random() < 0.5), merge=rng.choice(["roundrobin", "random", "hbf", "contiguous"]), **gkw)
     nm = rng.choice([0, 1, 2, 4, 10])
     muts = []
     for _ in range(nm):
@@ -78,8 +82,37 @@ def one_case(args):
             s = t
             break
         muts.append(m)
-    if any(p.f.get("system_id", 32) != 32 for lp in s.pkts for p in lp):
-        return out
+    planted = []
+    if plant == 1:
+        firsts = set()
+        seen = set()
+        for k, (l, i) in enumerate(s.order):
+            key = (l, s.pkts[l][i].f["fee_id"])
+            if key not in seen:
+                seen.add(key)
+                firsts.add((l, i))
+        cand = [k for k in range(100, len(s.order), 100)] + [rng.randrange(1, len(s.order)) for _ in range(2)]
+        for k in cand:
+            l, i = s.order[k]
+            if (l, i) not in firsts and i > 0:
+                s.pkts[l][i].f["system_id"] = rng.choice([0, 1, 99, 200, 255])
+                planted.append("unknown system id at global packet %d" % k)
+    elif plant == 2:
+        for l, lp in enumerate(s.pkts):
+            c = [i for i in range(1, len(lp)) if lp[i - 1].words and lp[i - 1].words[-1][0] == "TDT" and lp[i - 1].words[-1][1][8] & 1 == 0]
+            if c and rng.random() < 0.8:
+                i = rng.choice(c)
+                lp[i].pad = rng.choice([16, 20, 33])
+                planted.append("over-padded payload on link index %d packet %d (mid-frame)" % (l, i))
+    # the first packet of every link / FEE id must be recognisable on its own (filtered and extracted runs start with it)
+    first_seen = set()
+    for l, i in s.order:
+        f = s.pkts[l][i].f
+        if (l, f["fee_id"]) not in first_seen:
+            first_seen.add((l, f["fee_id"]))
+            if f.get("system_id", 32) != 32:
+                return out
+    muts = muts + planted
     margs = obs.MODES[mode]
     desc = "%d links, %d packets, %d mutations %s, check %s" % (len(s.links), sum(len(x) for x in s.pkts), nm, muts[:3], mode)
     out["sample"] = desc
@@ -116,6 +149,13 @@ def one_case(args):
     if r0.abnormal() or r0.stats is None:
         return bad("abnormal end of the full run: %s" % r0.abnormal(), r0)
     if r0.stats["error_stats"].get("fatal_error"):
+        # a fatal error ends the validation of every link. It is only legitimate if the input as a whole is ill-framed (independent walk of the
+        # offset chain); in a well-framed stream, whose first packet is recognised, no link's content may stop the others
+        w = R.walk(data0)
+        well = bool(w) and all(x.complete and x.f["memory_size"] <= x.f["offset_to_next"] and x.f["memory_size"] >= 64 for x in w) and \
+            w[-1].offset + w[-1].f["offset_to_next"] == len(data0)
+        if well:
+            return bad("fatal: the full run stops with a fatal error although the stream is well-framed (%d packets): %s" % (len(w), str(r0.stats["error_stats"]["fatal_error"])[:100]), r0)
         return out
     ref = per_link(r0.reported(), spans0)
     if ref is None:
@@ -193,7 +233,7 @@ def one_case(args):
         v = same(l, (got or {}).get(l, []), "in the in-process sequential pass through one validator")
         if v:
             return v
-    out["key"] = (mode, len(s.links), nm, out["nontrivial"] > 0)
+    out["key"] = (mode, len(s.links), nm, out["nontrivial"] > 0, plant)
     return out
 
 
@@ -218,7 +258,8 @@ def run(res):
     res.extra.update(link_comparisons=comp, nontrivial_link_comparisons=nont)
     if comp and nont < 0.2 * comp:
         res.inconclusive.append("only %d of %d link comparisons involved a link with errors" % (nont, comp))
-    res.rule = ("multi-link G-conf streams with 0..10 structure-aware mutations (identifiers of links untouched) x {all, all its, all its-stave, sanity its}; per-link lists normalised to "
+    res.rule = ("multi-link G-conf streams with 0..10 structure-aware mutations (identifiers of links untouched) x {all, all its, all its-stave, sanity its}, a third each with planted cross-link situations (unknown system id on non-first packets incl. global index 100k in streams "
+                "of > 100 packets; over-padded payloads on several links right after a split frame); per-link lists normalised to "
                 "(packet index in link, delta) compared between full run, 2 re-merges, extracted file, filters, in-process pass; non-trivial = stream with >= 1 compared link that has errors")
     res.min_nontrivial = 12 if res.tier == "quick" else 300
     res.assumptions = ["an extracted / filtered stream is only comparable if its first RDH0 passes the start-up gate (else skipped, the in-process pass still covers the link)",
